@@ -1,0 +1,41 @@
+//go:build verif
+
+// Verification hooks (read-only): compiled only with -tags verif.
+
+package obfs4
+
+import "fmt"
+
+// VerifConstants returns the package constants as the compiler evaluated them.
+func VerifConstants() map[string]string {
+	m := map[string]string{}
+	put := func(k string, v interface{}) { m[k] = fmt.Sprint(v) }
+	put("seedLength", seedLength)
+	put("headerLength", headerLength)
+	put("clientHandshakeTimeout", int64(clientHandshakeTimeout))
+	put("serverHandshakeTimeout", int64(serverHandshakeTimeout))
+	put("replayTTL", int64(replayTTL))
+	put("maxIATDelay", maxIATDelay)
+	put("maxCloseDelay", maxCloseDelay)
+	put("iatNone", iatNone)
+	put("iatEnabled", iatEnabled)
+	put("iatParanoid", iatParanoid)
+	put("packetOverhead", packetOverhead)
+	put("maxPacketPayloadLength", maxPacketPayloadLength)
+	put("maxPacketPaddingLength", maxPacketPaddingLength)
+	put("seedPacketPayloadLength", seedPacketPayloadLength)
+	put("consumeReadSize", consumeReadSize)
+	put("packetTypePayload", packetTypePayload)
+	put("packetTypePrngSeed", packetTypePrngSeed)
+	put("maxHandshakeLength", maxHandshakeLength)
+	put("clientMinPadLength", clientMinPadLength)
+	put("clientMaxPadLength", clientMaxPadLength)
+	put("clientMinHandshakeLength", clientMinHandshakeLength)
+	put("serverMinPadLength", serverMinPadLength)
+	put("serverMaxPadLength", serverMaxPadLength)
+	put("serverMinHandshakeLength", serverMinHandshakeLength)
+	put("markLength", markLength)
+	put("macLength", macLength)
+	put("inlineSeedFrameLength", inlineSeedFrameLength)
+	return m
+}
